@@ -55,10 +55,18 @@ def b64encode_model(alphabet):
                     out.append(z3.simplify(sextet_to_char(s6, alphabet)))
                 else:
                     out.append(ord("="))
-        return SymBytes([c.as_long() if z3.is_bv_value(c) else c for c in out])
+        res = SymBytes([c.as_long() if z3.is_bv_value(c) else c for c in out])
+        # provenance: decoding exactly these cells again gives `data` back (b64decode(b64encode(x)) == x, which the bit-level
+        # model also yields — validated each run — but only after one solver query per character)
+        Ctx.cur.__dict__.setdefault("b64_cache", {})[(id(alphabet), _cell_key(res.cells))] = list(cells)
+        return res
 
     enc.__symx_model__ = True
     return enc
+
+
+def _cell_key(cells):
+    return tuple(c if isinstance(c, int) else ("z", c.get_id()) for c in cells)
 
 
 def b64decode_model(alphabet):
@@ -70,6 +78,17 @@ def b64decode_model(alphabet):
         if all(isinstance(c, int) for c in cells):
             f = base64.b64decode if alphabet is STD else base64.urlsafe_b64decode
             return f(bytes(cells))
+        cache = Ctx.cur.__dict__.get("b64_cache", {})
+        trial = list(cells)
+        for _ in range(3):
+            # (excess '=' behind a complete encoding is ignored by the non-strict decoder: `data + b"=="` is a common idiom)
+            hit = cache.get((id(alphabet), _cell_key(trial)))
+            if hit is not None:
+                return unwrap(SymBytes(list(hit)))
+            if trial and trial[-1] == 61:
+                trial = trial[:-1]
+            else:
+                break
         sext = []
         npad = 0
         # binascii non-strict: on '=' : if quad_pos>=2 and enough pads -> stop; we model the common shape:
